@@ -77,3 +77,21 @@ Proof.
   - vm_compute. reflexivity.
   - vm_compute. discriminate.
 Qed.
+
+(* Slot model: a run in which channel_ready is re-sent after two revocations
+   (the scid-alias upgrade on reconnect) is a run of the model, and the re-sent
+   message carries index 1 -- the hypothesis `run st0 es = Some _` of the
+   C06_own_* theorems is satisfiable by a non-trivial history. *)
+From LV Require Import Shachain.SlotModel.
+Example slot_run_with_resend :
+  run st0 [SOpen; SReady; SRevoke; SRevoke; SReady; SRetransmit; SReestablish; SRevoke] =
+  Some (mk_st true true 3,
+        [(None, 0); (None, 1); (Some 0, 2); (Some 1, 3); (None, 1); (Some 1, 3); (None, 2);
+         (Some 2, 4)]).
+Proof. reflexivity. Qed.
+Example slot_run_firsts :
+  firsts [0; 1; 2; 3; 1; 3; 2; 4] = seqN 0 5 /\ firsts [0; 1; 1; 2] = seqN 0 3.
+Proof. split; reflexivity. Qed.
+(* a revoke_and_ack before channel_ready is not a run *)
+Example slot_run_rejects : run st0 [SOpen; SRevoke] = None.
+Proof. reflexivity. Qed.
